@@ -404,11 +404,12 @@ Section Facts.
     Variable P : T N -> Prop.
     Hypothesis HP : TotalPreorderOn P.
     Hypothesis Pzero : P zero.
-    Hypothesis Pprio : forall l r, P (prio l r).
+    (* the priorities present: those of the retained segments with interior points of the states reached *)
+    Hypothesis Pprio : forall j l r, AdjS l (r - 1) (snd (state_at j)) -> l + 3 <= r -> P (prio l r).
     Let Rle (a b : entry) : Prop := ele a b = true.
 
-    Lemma Pkey l r : P (key l r).
-    Proof. unfold key. destruct ((l =? 0) && (r =? n)); auto. Qed.
+    Lemma Pkey j l r : AdjS l (r - 1) (snd (state_at j)) -> l + 3 <= r -> P (key l r).
+    Proof. intros H1 H2. unfold key. destruct ((l =? 0) && (r =? n)); [exact Pzero|exact (Pprio j l r H1 H2)]. Qed.
     Lemma state_sorted j : StronglySorted Rle (fst (state_at j)).
     Proof.
       destruct j as [|j].
@@ -416,15 +417,15 @@ Section Facts.
       - rewrite state_at_S. pose proof (state_at_inv j) as HI.
         destruct (fst (state_at j)) as [|e0 l0] eqn:E.
         + rewrite step_empty; auto. rewrite E. constructor.
-        + destruct (step_nonempty _ HI ltac:(rewrite E; discriminate)) as (p & l & r & st0 & Est & _ & _ & _ & _ & _ & _ & _ & (news & -> & Hnews) & _).
+        + destruct (step_nonempty _ HI ltac:(rewrite E; discriminate)) as (p & l & r & st0 & Est & _ & _ & _ & _ & _ & _ & _ & (news & Enews & _) & HI').
+          rewrite Enews.
           apply (sort_by_sorted ele (fun e : entry => P (fst e))).
           * intros x y z Px Py Pz. unfold ele. apply (ord_trans P HP); auto.
           * intros x y Px Py. unfold ele. apply (ord_total P HP); auto.
-          * apply Forall_app. split; rewrite Forall_forall.
-            -- intros [p' [l' r']] He. cbn [fst].
-               destruct (inv_st _ _ HI p' l' r') as (-> & _); [|apply Pkey].
-               rewrite Est. apply in_or_app. left. exact He.
-            -- intros e He. rewrite (Hnews e He). apply Pprio.
+          * rewrite Forall_forall. intros [p' [l' r']] He. cbn [fst].
+            assert (Hin : In (p', (l', r')) (fst (step (state_at j)))) by (rewrite Enews; apply sort_by_In; exact He).
+            destruct (inv_st _ _ HI' p' l' r' Hin) as (-> & Hw' & Hadj').
+            rewrite <- state_at_S in Hadj'. exact (Pkey (S j) l' r' Hadj' Hw').
     Qed.
 
     Theorem Sk_greedy k : 2 <= k -> k < n ->
@@ -717,9 +718,10 @@ Section Statements.
     rewrite <- E. apply rdp_fixed_spec; auto.
   Qed.
 
-  (* Tier O on the priorities present *)
+  (* Tier O on the priorities present: those of the retained segments (with interior points) of the chain *)
   Theorem fixed_greedy fuel k :
-    TotalPreorderOn (@notnan N) -> notnan (@zero N) -> (forall l r, notnan (prio l r)) ->
+    TotalPreorderOn (@notnan N) -> notnan (@zero N) ->
+    (forall j a b, In (a, b) (adj_pairs (red_of (rdp_fixed fuel j))) -> a + 2 <= b -> notnan (prio a (b + 1))) ->
     n <= fuel -> 2 <= k -> k < n ->
     exists red a b,
       rdp_fixed fuel k = Some (red, rows red) /\ In (a, b) (adj_pairs red) /\ a + 2 <= b /\
@@ -729,11 +731,14 @@ Section Statements.
         (a' = a /\ b' = b) \/ prio a' (b' + 1) <=?! prio a (b + 1) = true.
   Proof.
     intros HO Hz Hp Hf H2 Hk.
-    destruct (Sk_greedy n eps dist prio Hn Hshape notnan HO Hz Hp k H2 Hk) as (a & b & Hin & Hw & E & Hmax).
+    assert (Hp' : forall j l r, AdjS l (r - 1) (snd (state_at n eps dist prio j)) -> l + 3 <= r -> notnan (prio l r)).
+    { intros j l r Hadj Hw. replace r with (r - 1 + 1) by lia. apply (Hp (j + 2)); [|lia].
+      rewrite rdp_fixed_spec by auto. cbn [red_of]. unfold RdpFixedFacts.Sk. replace (j + 2 - 2) with j by lia.
+      apply AdjS_Adj; [|exact Hadj]. apply (inv_si _ _ _ _ (state_at_inv n eps dist prio Hn Hshape j)). }
+    destruct (Sk_greedy n eps dist prio Hn Hshape notnan HO Hz Hp' k H2 Hk) as (a & b & Hin & Hw & E & Hmax).
     exists (Sk k), a, b. split; [apply rdp_fixed_spec; auto|]. split; [exact Hin|]. split; [exact Hw|]. split; [|exact Hmax].
     rewrite <- E. apply rdp_fixed_spec; auto.
   Qed.
-
 End Statements.
 
 Section Statements6.
